@@ -346,6 +346,60 @@ def scripted_cases():
         del st, got
         gc.collect()
 
+    # a rejected `.shape =` (wrong size; a layout that cannot be re-shaped in place) on a base, on a view and on a view of a
+    # view: links, values, the reach of later in-place updates and the gradients are those of the program without it
+    def sh_build():
+        x = mg.tensor(np.arange(1.0, 7.0))
+        v = x[:4]
+        w = v[1:]
+        y = mg.tensor(np.arange(1.0, 7.0).reshape(2, 3))
+        yt = y.T
+        return x, v, w, y, yt, x * x, v * v * 3.0, w * w * 5.0, yt * yt
+
+    def sh_finish(st):
+        x, v, w, y, yt, sx, sv, sw, sy = st
+        links = (v.base is x, w.base is x, yt.base is y, x.base is None, v.shape, w.shape, yt.shape)
+        x[:2] = -1.0  # an in-place update of the base must still reach every member of the family
+        reach = (np.array(v.data), np.array(w.data), bool(np.shares_memory(v.data, x.data)), bool(np.shares_memory(w.data, x.data)),
+                 v.base is x, w.base is x)
+        (sx.sum() + sv.sum() + sw.sum() + sy.sum()).backward()
+        grads = [None if t.grad is None else np.array(t.grad) for t in (x, v, w, y, yt)]
+        return links, reach, grads
+
+    def _same(a, b):
+        if isinstance(a, np.ndarray) or isinstance(b, np.ndarray):
+            return isinstance(a, np.ndarray) and isinstance(b, np.ndarray) and a.shape == b.shape and np.array_equal(a, b)
+        if isinstance(a, (tuple, list)):
+            return len(a) == len(b) and all(_same(p, q) for p, q in zip(a, b))
+        return a is b or a == b
+
+    refs = sh_finish(sh_build())
+    for name, bad in [("shape-setter-view-wrong-size", lambda x, v, w, y, yt, *_: setattr(v, "shape", (3,))),
+                      ("shape-setter-view-too-big", lambda x, v, w, y, yt, *_: setattr(v, "shape", (5, 5))),
+                      ("shape-setter-viewofview-wrong-size", lambda x, v, w, y, yt, *_: setattr(w, "shape", (2, 2))),
+                      ("shape-setter-base-wrong-size", lambda x, v, w, y, yt, *_: setattr(x, "shape", (4,))),
+                      ("shape-setter-transposed-view-layout", lambda x, v, w, y, yt, *_: setattr(yt, "shape", (6,)))]:
+        gc.collect()
+        st = sh_build()
+        try:
+            bad(*st)
+            out.append((name, "did-not-raise", f"{name}: the shape assignment was expected to raise"))
+            continue
+        except Exception:
+            pass
+        got = sh_finish(st)
+        if not _same(got[0], refs[0]):
+            out.append((name, "trace-left", f"{name}: base links / shapes after the rejected assignment: {got[0]}, without it: {refs[0]}"))
+        elif not _same(got[1], refs[1]):
+            out.append((name, "graph-corrupted", f"{name}: after the rejected assignment a later in-place update of the base reaches the family "
+                        f"differently: views {[a.tolist() for a in got[1][:2]]} sharing/base {got[1][2:]}, without it "
+                        f"{[a.tolist() for a in refs[1][:2]]} {refs[1][2:]}"))
+        elif not _same(got[2], refs[2]):
+            out.append((name, "graph-corrupted", f"{name}: gradients differ after the rejected assignment: "
+                        f"{[None if g is None else g.tolist() for g in got[2]]} vs {[None if g is None else g.tolist() for g in refs[2]]}"))
+        del st, got
+        gc.collect()
+
     ref = ro_finish(ro_build())
     for name, bad in [("readonly-view-setitem", lambda arr, x, v, w, *_: v.__setitem__(Ellipsis, 0.0)),
                       ("readonly-base-imul", lambda arr, x, v, w, *_: x.__imul__(2.0)),
@@ -371,7 +425,7 @@ def scripted_cases():
     return out
 
 
-N_SCRIPTED = 48
+N_SCRIPTED = 53
 
 
 def run(ctx: Ctx) -> Outcome:
